@@ -6,6 +6,7 @@ import Agd.Driver.Util
 * `reset i TEXT`            → `ok n` | `err`          (Storage.Reset on storage i)
 * `new i TEXT`              → `ok` | `err`            (storage i := NewStorage(TEXT); empty on error)
 * `matches i HOST`          → `1` | `0`               (Storage.Matches)
+* `matchany i H1 H2 …`      → `none` | `rule HOST`    (Storage.MatchesAny: the first listed host)
 * `hashes i P1 P2 …`        → hex digests | `-`       (Storage.Hashes, prefixes as 4 hex chars)
 * `prefixes STR`            → `err` | prefixes | `-`  (prefixesFromStr)
 * `ps DOMAIN SUFFIX icann`  → `ok`                    (one entry of the PublicSuffix table)
@@ -19,6 +20,10 @@ import Agd.Driver.Util
 * `question FLAGS QNAME QT` → `none` | `list i rule HOST`   (question name as sent, through the group's
                               switches: FLAGS = five 0/1 for safe browsing on, dangerous, newly registered,
                               parental on, adult)
+* `install i TEXT`          → `ok` | `err`            (a refresh of list i from its URL: empty body refused)
+* `wmatcher ENV`            → `ok`                    (the matcher the builder makes; ENV = three 0/1 for
+                              SAFE_BROWSING_ENABLED, ADULT_BLOCKING_ENABLED, NEW_REG_DOMAINS_ENABLED)
+* `wquestion ENV FLAGS QNAME QT` → as `question`, with only the lists the builder has created
 * `qtxt QNAME QT`           → as `txt`, from the question name as sent (not normalised)
 -/
 namespace Agd.Driver.C11
@@ -74,6 +79,9 @@ def step (s : S) : List String → S × String
     ({ s with stores := fun j => if j = nat! i then r.1.getD Store.empty else s.stores j },
       match r.2 with | some _ => "ok" | none => "err")
   | ["matches", i, host] => (s, showB («matches» H (s.stores (nat! i)) (fromHex host)))
+  | "matchany" :: i :: hosts =>
+    (s, match firstMatch H (s.stores (nat! i)) (hosts.map fromHex) with
+        | none => "none" | some r => "rule " ++ toHex r)
   | "hashes" :: i :: prefs => (s, showDigests (hashes (s.stores (nat! i)) (prefs.map fromHex)))
   | ["prefixes", str] =>
     (s, match prefixesFromStr (fromHex str) with | none => "err" | some ps => showList ps)
@@ -91,6 +99,20 @@ def step (s : S) : List String → S × String
   | ["question", flags, qname, qt] =>
     let f := flags.toList.map (· == '1')
     let en := enabledLists (f.getD 0 false) (f.getD 1 false) (f.getD 2 false) (f.getD 3 false) (f.getD 4 false)
+    (s, match questionVerdict H s.ps s.stores en (fromHex qname) (nat! qt) with
+        | none => "none" | some (i, r) => s!"list {i} rule " ++ toHex r)
+  | ["install", i, text] =>
+    let r := installText H (s.stores (nat! i)) (fromHex text)
+    ({ s with stores := fun j => if j = nat! i then r.1 else s.stores j },
+      match r.2 with | some _ => "ok" | none => "err")
+  | ["wmatcher", env] =>
+    let e := env.toList.map (· == '1')
+    ({ s with cfg := builtCfg (e.getD 0 false) (e.getD 1 false) }, "ok")
+  | ["wquestion", env, flags, qname, qt] =>
+    let e := env.toList.map (· == '1')
+    let f := flags.toList.map (· == '1')
+    let en := builtLists (e.getD 0 false) (e.getD 1 false) (e.getD 2 false)
+      (enabledLists (f.getD 0 false) (f.getD 1 false) (f.getD 2 false) (f.getD 3 false) (f.getD 4 false))
     (s, match questionVerdict H s.ps s.stores en (fromHex qname) (nat! qt) with
         | none => "none" | some (i, r) => s!"list {i} rule " ++ toHex r)
   | ["qtxt", qname, qt] =>
